@@ -8,10 +8,11 @@ open FedjaxVerif Samplers
 def symOracles : Oracles Nat Nat Nat :=
   { choice := fun s n => List.replicate n s, keys := fun r n => List.replicate n r, data := id }
 
-/-- ops are encoded as integers: `-1` = `sample()`, `r ≥ 0` = `set_round_num(r)`. -/
+/-- ops are encoded as integers: `-1` = `sample()`, `-2` = a `sample()` that raised while loading, `r ≥ 0` = `set_round_num(r)`. -/
 def toOp? (v : Val) : Option Op := do
   let i ← v.toInt?
-  if i = -1 then some .sample else if 0 ≤ i then some (.setRound i.toNat) else none
+  if i = -1 then some .sample else if i = -2 then some .failedSample
+  else if 0 ≤ i then some (.setRound i.toNat) else none
 
 def renderOut : Option (List (Nat × Nat × Nat)) → Val
   | none => .sym "none"
